@@ -70,7 +70,7 @@ Section C03.
       /\ wasted st' = [].
   Proof.
     intros st l st' Hr H. destruct (wasted_exact_lemma G D2R solve c st l st' Hr H) as [A B].
-    split; [|exact B]. intro t. rewrite A. unfold expired. rewrite N.ltb_lt. reflexivity.
+    split; [|exact B]. intro t. rewrite A, expired_ltb, N.ltb_lt. reflexivity.
   Qed.
 
   (* an expired track is never continued: it keeps its content and no record of the call carries its id *)
